@@ -28,6 +28,12 @@ const (
 	batchSize = 1024
 )
 
+var (
+	// markers for the keys held in the local KV store: a key with an empty value still has to be uploaded to the index
+	kvUploaded  = []byte("X") // already in some index chunk
+	kvPreloaded = []byte("R") // loaded from the index chunks of an interrupted run (--resume)
+)
+
 type (
 	PurgeIndex struct {
 		IndexTime  time.Time
@@ -549,8 +555,16 @@ func bundleKeys(ctx context.Context, b *Bundle, size uint32, db kvStore, logger 
 		}
 
 		if found {
-			// the root key is found in store, no need to unpack it: we necessarily have all its leaves in store
-			continue
+			// the root key is found in store, no need to unpack it: we necessarily have all its leaves in store.
+			// This does not hold for a root preloaded from the index chunks of an interrupted run (--resume): its
+			// leaves may not have been uploaded before the interruption, so it is unpacked again.
+			val, erg := db.Get([]byte(key))
+			if erg != nil {
+				return nil, erg
+			}
+			if !bytes.Equal(val, kvPreloaded) {
+				continue
+			}
 		}
 
 		keys = append(keys, key)
@@ -599,7 +613,7 @@ func PurgeDeleteUnused(stores context2.Stores, opts ...PurgeOption) (*PurgeBlobs
 	// 1. Download index and save it on a local KV store
 	logger.Info("copying index entries to local KV store")
 
-	indexTime, numKeys, lastIndex, err := copyIndexChunks(ctx, db, indexStore, logger, options) // iterate over multiple index files
+	indexTime, numKeys, lastIndex, err := copyIndexChunks(ctx, db, indexStore, kvUploaded, logger, options) // iterate over multiple index files
 	if err != nil {
 		return nil, fmt.Errorf("copy index: %w", err)
 	}
@@ -825,7 +839,7 @@ func checkAndDeleteKey(ctx context.Context,
 }
 
 // copyIndexChunks iterates over all index chunks and loads the keys in the local KV store.
-func copyIndexChunks(ctx context.Context, db kvStore, indexStore storage.Store, logger *zap.Logger, options *purgeOptions) (indexTime *time.Time, numKeys uint64, lastIndex uint64, err error) {
+func copyIndexChunks(ctx context.Context, db kvStore, indexStore storage.Store, marker []byte, logger *zap.Logger, options *purgeOptions) (indexTime *time.Time, numKeys uint64, lastIndex uint64, err error) {
 	iterator := func(next string) ([]string, string, error) {
 		return indexStore.KeysPrefix(ctx, next, model.ReverseIndexPrefix(), "", 1024)
 	}
@@ -870,7 +884,7 @@ func copyIndexChunks(ctx context.Context, db kvStore, indexStore storage.Store, 
 					_ = r.Close()
 				}()
 
-				ts, loadedKeys, e := loadChunk(gctx, db, r)
+				ts, loadedKeys, e := loadChunk(gctx, db, r, marker)
 				if e != nil {
 					return fmt.Errorf("loading index chunk in metadata [%s]: %w", chunk, e)
 				}
@@ -909,7 +923,7 @@ func copyIndexChunks(ctx context.Context, db kvStore, indexStore storage.Store, 
 	return indexTime, numKeys, lastIndex, nil
 }
 
-func loadChunk(ctx context.Context, db kvStore, r io.Reader) (*time.Time, uint64, error) {
+func loadChunk(ctx context.Context, db kvStore, r io.Reader, marker []byte) (*time.Time, uint64, error) {
 	scanner := bufio.NewScanner(r)
 	isFirst := true
 	var (
@@ -939,7 +953,7 @@ func loadChunk(ctx context.Context, db kvStore, r io.Reader) (*time.Time, uint64
 		}
 
 		// write key to local KV store. Payload is marked as "uploaded", to support the resume use-case.
-		if err := db.Set(key, []byte("X")); err != nil {
+		if err := db.Set(key, marker); err != nil {
 			return nil, numKeys, err
 		}
 
@@ -1181,7 +1195,7 @@ func (r *dbReader) Commit() error {
 	defer r.mx.Unlock()
 
 	for _, key := range r.sent {
-		if err := r.db.Set(key, []byte("X")); err != nil {
+		if err := r.db.Set(key, kvUploaded); err != nil {
 			return fmt.Errorf("failed to mark KV key as read: %w", err)
 		}
 	}
@@ -1204,7 +1218,7 @@ func max(a, b int) int {
 
 func preloadIndexFiles(ctx context.Context, stores context2.Stores, db kvStore, logger *zap.Logger, options *purgeOptions) (uint64, uint64, *time.Time, error) {
 	indexStore := getMetaStore(stores)
-	indexTime, numKeys, lastIndex, err := copyIndexChunks(ctx, db, indexStore, logger, options) // iterate over multiple index files
+	indexTime, numKeys, lastIndex, err := copyIndexChunks(ctx, db, indexStore, kvPreloaded, logger, options) // iterate over multiple index files
 	if err != nil {
 		return lastIndex, numKeys, indexTime, fmt.Errorf("copy index: %w", err)
 	}
